@@ -848,6 +848,89 @@ func runC01(args []string) int {
 	if code := runAndJudge(r, d, "accepted", bcases, bmodel, par); code != 0 {
 		return code
 	}
+	// ------------------------------------------------ (b2) the same field bytes under another message number:
+	// a local type defined for message A and then redefined, with the very same (number, size, base type)
+	// triples, for message B whose field of that number may not admit them; with and without a data record
+	// of A in between.  Outcome class and consumption compared with the model.
+	{
+		type key struct{ num, size, bt byte }
+		byKey := map[key]map[uint16]bool{}
+		var listedAcc []accDef
+		for _, a := range accepted {
+			if !a.listed {
+				continue
+			}
+			k := key{a.num, a.size, a.bt}
+			if byKey[k] == nil {
+				byKey[k] = map[uint16]bool{}
+			}
+			byKey[k][a.gmn] = true
+			listedAcc = append(listedAcc, a)
+		}
+		withNum := map[byte][]uint16{}
+		for _, mi := range p.msgs {
+			for _, f := range mi.Fields {
+				withNum[f.Num] = append(withNum[f.Num], mi.Num)
+			}
+		}
+		var rcases []c01Case
+		var rmodel []bool
+		nre := sizes(o.tier, o.boost, 6000, 200000)
+		for i := 0; i < nre && len(listedAcc) > 0; i++ {
+			a := listedAcc[rg.intn(len(listedAcc))]
+			gA, gB := a.gmn, a.gmn
+			cands := withNum[a.num]
+			if len(cands) > 0 {
+				gB = cands[rg.intn(len(cands))]
+			}
+			kind := "listed->listed"
+			switch rg.intn(4) {
+			case 0: // first an unknown message (every definition is admitted), then the known one
+				gA = p.unknown[rg.intn(len(p.unknown))]
+				kind = "unknown->listed"
+			case 1: // the other way round
+				gA, gB = gB, a.gmn
+				kind = "listed->listed (swapped)"
+			}
+			bothAccept := byKey[key{a.num, a.size, a.bt}][gB] && (kind == "unknown->listed" || byKey[key{a.num, a.size, a.bt}][gA])
+			r.hist(fmt.Sprintf("redefinition_%s_second_admitted=%v", kind, bothAccept))
+			be := rg.bool()
+			arch := byte(0)
+			if be {
+				arch = 1
+			}
+			pay := rg.bytes(int(a.size))
+			if rg.chance(1, 4) {
+				for j := range pay {
+					pay[j] = 0
+				}
+			}
+			st := &stream{HdrSize: 14, Proto: 0x20, Profile: 2115, HdrCRC: "ok"}
+			st.Records = []record{
+				{Kind: "D", Local: 0, Gmn: 0, Fields: []fieldDefS{{0, 1, 0}}},
+				{Kind: "M", Local: 0, Pay: []byte{hostFt(gB)}},
+				{Kind: "D", Local: 1, Arch: arch, Gmn: gA, Fields: []fieldDefS{{a.num, a.size, a.bt}}},
+			}
+			if rg.bool() {
+				st.Records = append(st.Records, record{Kind: "M", Local: 1, Pay: rg.bytes(int(a.size))})
+			}
+			st.Records = append(st.Records,
+				record{Kind: "D", Local: 1, Arch: arch, Gmn: gB, Fields: []fieldDefS{{a.num, a.size, a.bt}}},
+				record{Kind: "M", Local: 1, Pay: pay})
+			data := st.bytes()
+			rs := readerSpec{Data: data}
+			if i%5 == 4 {
+				rs.Sched = makeSched(rg, 1+rg.intn(8), len(data))
+			}
+			rcases = append(rcases, c01Case{Entry: []string{"D", "D", "C"}[i%3], Opts: []string{"000", "011", "111"}[i%3], RS: rs, Origin: "redefinition with the same field bytes",
+				Note: fmt.Sprintf("first mesg=%d second mesg=%d field=%d size=%d basetype=0x%02x bigendian=%v (%s)", gA, gB, a.num, a.size, a.bt, be, kind)})
+			rmodel = append(rmodel, true)
+		}
+		if code := runAndJudge(r, d, "redefinition", rcases, rmodel, par); code != 0 {
+			return code
+		}
+		r.Extra["redefinition_streams"] = len(rcases)
+	}
 	r.Extra["accepted_definitions"] = hAcc
 	r.Extra["accepted_unlisted_definitions"] = nUnlisted
 	r.Extra["accepted_unlisted_sampled"] = len(unlistedRes)
